@@ -33,6 +33,9 @@ class Evaluator:
         self.max_steps = max_steps
         self.call_hook = call_hook
         self.prog = prog
+        self.stop_hook = None     # stop_hook(callee dict, args) -> label: the path ends there with result ("stopped", label)
+        self.log_pred = None      # log_pred(callee dict) -> name to record on the path's call log
+        self.path_logs = []       # (result, tuple of logged names) per finished path (run_all)
         self.inline = inline      # predicate on target Fn: inline it?
         self.depth = depth
         self.trace = []
@@ -61,6 +64,14 @@ class Evaluator:
             return ("int", c["int"])
         if "str" in c:
             return ("str", c["str"])
+        if "promoted" in c and c["promoted"] < len(self.f.promoted):
+            for it in self.f.promoted[c["promoted"]]:
+                if "variant" in it:
+                    return ("variant", last_seg(it["agg"]), it["variant"], ())
+                if "int" in it:
+                    return ("int", it["int"])
+                if "str" in it:
+                    return ("str", it["str"])
         return ("opaque", "const:" + str(c.get("ty")))
 
     def compare(self, op, a, b):
@@ -164,6 +175,7 @@ class Evaluator:
             t = blk["t"]
             k = t["k"]
             if k == "return":
+                self.path_logs.append((env.get(0), env.get("__log", ())))
                 return env.get(0)
             if k in ("goto", "drop"):
                 bb = t["to"]
@@ -189,6 +201,8 @@ class Evaluator:
                         if t["otherwise"] not in succs:
                             succs.append(t["otherwise"])
                         for sb in succs:
+                            if f.blocks[sb]["t"]["k"] == "unreachable" and not f.blocks[sb]["s"]:
+                                continue
                             work.append((sb, dict(env), steps))
                         return _FORKED
                     bb = nxt
@@ -198,6 +212,15 @@ class Evaluator:
                 args = [self.operand(env, a) for a in t["args"]]
                 dst = t["dst"]
                 res = ("opaque", "call:%s" % name, tuple(args[:1]))
+                if self.log_pred is not None:
+                    tag = self.log_pred(cal)
+                    if tag:
+                        env["__log"] = env.get("__log", ()) + (tag,)
+                if self.stop_hook is not None:
+                    lab = self.stop_hook(cal, args)
+                    if lab:
+                        self.path_logs.append((("stopped", lab), env.get("__log", ())))
+                        return ("stopped", lab)
                 hooked = self.call_hook(cal, args) if self.call_hook else None
                 if hooked is not None:
                     res = hooked
@@ -238,5 +261,7 @@ class Evaluator:
                 if "to" not in t:
                     raise Undecided("diverging call %s" % name)
                 bb = t["to"]
+            elif k == "unreachable" and fork:
+                return _FORKED   # infeasible branch chosen by a fork: drop the path
             else:
                 raise Undecided("terminator %s" % k)
